@@ -150,7 +150,12 @@ impl Scenario for C12Recency {
                             }
                             _ => {
                                 st.value += 1;
-                                registry.get_or_create_histogram(&k, |h| HistogramFn::record(h, 1.0));
+                                // (half of the histogram updates go through the bulk entry point)
+                                if i % 2 == 0 {
+                                    registry.get_or_create_histogram(&k, |h| HistogramFn::record(h, 1.0));
+                                } else {
+                                    registry.get_or_create_histogram(&k, |h| HistogramFn::record_many(h, 1.0, 1));
+                                }
                             }
                         }
                     }
@@ -402,7 +407,11 @@ impl Scenario for C12PromIdle {
                                 }
                                 _ => {
                                     st.value += 1;
-                                    rec.register_histogram(&k, &MD).record(1.0);
+                                    if i % 2 == 0 {
+                                        rec.register_histogram(&k, &MD).record(1.0);
+                                    } else {
+                                        rec.register_histogram(&k, &MD).record_many(1.0, 1);
+                                    }
                                 }
                             }
                         }
@@ -533,17 +542,29 @@ impl Scenario for C12PromIdle {
 #[derive(Clone, Debug, Serialize, Deserialize)]
 pub struct MtPlan {
     pub timeout_ms: u64,
-    /// the updater's increments (each > 0)
+    /// the updater's increments; update i adds 2^i, so that a reported value names exactly the
+    /// updates it contains (the stored numbers only say how many updates there are)
     pub updates: Vec<u64>,
     /// before each observation the observer advances the clock: 0 = 1 ms, 1 = timeout + 1 ns, 2 = 3 x timeout
     pub observes: Vec<u8>,
     /// scheduling points the updater idles before it starts
     pub delay: u32,
+    /// observations made by a second observing thread (it does not move the clock): two scrapes /
+    /// an upkeep pass overlapping each other
+    #[serde(default)]
+    pub second_observer: u32,
+    /// the updater's later updates wait for this many scheduling points each (lets expiries happen
+    /// between updates, so that the series is re-created)
+    #[serde(default)]
+    pub update_gap: u32,
 }
 
 #[derive(Clone, Debug)]
 struct MtObs {
     t: u64,
+    /// clock reading when the observation returned (the other observer may have moved the clock
+    /// while this one was in progress)
+    t_end: u64,
     inv: u64,
     ret: u64,
     listed: bool,
@@ -570,6 +591,8 @@ impl Scenario for C12RecencyMt {
             updates: (0..r.range(1, 4)).map(|_| r.range(1, 3)).collect(),
             observes: (0..r.range(2, 5)).map(|_| *r.pick(&[0u8, 1, 1, 2])).collect(),
             delay: r.below(6) as u32,
+            second_observer: if r.chance(400) { r.range(1, 4) as u32 } else { 0 },
+            update_gap: *r.pick(&[0u32, 0, 20, 60, 150]),
         }
     }
     fn execute(&self, plan: &MtPlan, sched: &SchedSpec) -> RunReport {
@@ -580,14 +603,20 @@ impl Scenario for C12RecencyMt {
         let sim = simulate(sched, 100_000, move || {
             let (clock, mock) = quanta::Clock::mock();
             let registry: Arc<Registry<Key, GenerationalAtomicStorage>> = Arc::new(Registry::new(GenerationalAtomicStorage::atomic()));
-            let recency: Recency<Key> = Recency::new(clock, MetricKindMask::ALL, Some(Duration::from_millis(p.timeout_ms)));
+            let recency: Arc<Recency<Key>> = Arc::new(Recency::new(clock, MetricKindMask::ALL, Some(Duration::from_millis(p.timeout_ms))));
             let k = key(0);
-            let (reg_u, k_u, updates, delay) = (registry.clone(), k.clone(), p.updates.clone(), p.delay);
+            let (reg_u, k_u, updates, delay, gap) = (registry.clone(), k.clone(), p.updates.clone(), p.delay, p.update_gap);
             let updater = dsim::spawn("updater", move || {
                 for _ in 0..delay {
                     dsim::point("c12mt.idle");
                 }
-                for d in updates {
+                for (ui, _) in updates.into_iter().enumerate() {
+                    let d = 1u64 << ui;
+                    if ui > 0 {
+                        for _ in 0..gap {
+                            dsim::point("c12mt.gap");
+                        }
+                    }
                     dsim::point("c12mt.update");
                     let inv = dsim::step();
                     reg_u.get_or_create_counter(&k_u, |c| CounterFn::increment(c, d));
@@ -596,6 +625,29 @@ impl Scenario for C12RecencyMt {
                 }
             });
             let t_ns = p.timeout_ms * 1_000_000;
+            let now_shared = Arc::new(std::sync::atomic::AtomicU64::new(0));
+            let second = if p.second_observer > 0 {
+                let (registry, recency, k, o2, now_shared, n) = (registry.clone(), recency.clone(), k.clone(), o2.clone(), now_shared.clone(), p.second_observer);
+                Some(dsim::spawn("observer2", move || {
+                    for _ in 0..n {
+                        dsim::point("c12mt.observe2");
+                        let inv = dsim::step();
+                        let mut o = MtObs { t: now_shared.load(Ordering::SeqCst), t_end: 0, inv, ret: 0, listed: false, keep: false, value: 0 };
+                        for (hk, h) in registry.get_counter_handles() {
+                            if hk == k {
+                                o.listed = true;
+                                o.keep = recency.should_store_counter(&hk, h.get_generation(), &registry);
+                                o.value = h.get_inner().load(Ordering::SeqCst);
+                            }
+                        }
+                        o.ret = dsim::step();
+                        o.t_end = now_shared.load(Ordering::SeqCst);
+                        o2.lock().unwrap().push(o);
+                    }
+                }))
+            } else {
+                None
+            };
             let mut now = 0u64;
             for a in &p.observes {
                 dsim::point("c12mt.observe");
@@ -607,8 +659,9 @@ impl Scenario for C12RecencyMt {
                 mock.increment(d);
                 dsim::advance(d);
                 now += d;
+                now_shared.store(now, Ordering::SeqCst);
                 let inv = dsim::step();
-                let mut o = MtObs { t: now, inv, ret: 0, listed: false, keep: false, value: 0 };
+                let mut o = MtObs { t: now, t_end: now, inv, ret: 0, listed: false, keep: false, value: 0 };
                 for (hk, h) in registry.get_counter_handles() {
                     if hk == k {
                         o.listed = true;
@@ -617,19 +670,35 @@ impl Scenario for C12RecencyMt {
                     }
                 }
                 o.ret = dsim::step();
-                let dropped = o.listed && !o.keep;
                 o2.lock().unwrap().push(o);
-                if dropped {
-                    break;
-                }
             }
             updater.join();
+            if let Some(h) = second {
+                h.join();
+            }
+            // closing observation at quiescence (the clock stays where it is)
+            let inv = dsim::step();
+            let mut o = MtObs { t: now, t_end: now, inv, ret: 0, listed: false, keep: false, value: 0 };
+            for (hk, h) in registry.get_counter_handles() {
+                if hk == k {
+                    o.listed = true;
+                    o.keep = recency.should_store_counter(&hk, h.get_generation(), &registry);
+                    o.value = h.get_inner().load(Ordering::SeqCst);
+                }
+            }
+            o.ret = dsim::step();
+            o2.lock().unwrap().push(o);
         });
         let mut rep = RunReport::ok(sim);
         let simr = rep.sim.as_ref().unwrap();
         let ups = ups.lock().unwrap().clone();
-        let obs = obs.lock().unwrap().clone();
+        let mut obs = obs.lock().unwrap().clone();
+        obs.sort_by_key(|o| o.inv);
         let t_ns = plan.timeout_ms * 1_000_000;
+        // value rules hold for the first life of the series only (after a drop it restarts from
+        // zero at a point the history does not pin down); the timing rules hold throughout
+        let first_drop: Option<u64> = obs.iter().filter(|o| o.listed && !o.keep).map(|o| o.inv).min();
+        let mut viol_at = 0u64;
         let mut v = None;
         if !simr.panics.is_empty() {
             v = violation("panic", format!("{:?}", simr.panics));
@@ -638,39 +707,89 @@ impl Scenario for C12RecencyMt {
                 if !o.listed {
                     continue;
                 }
+                viol_at = o.ret;
                 let done_before: u64 = ups.iter().filter(|u| u.1 < o.inv).map(|u| u.2).sum();
                 let begun_before: u64 = ups.iter().filter(|u| u.0 < o.ret).map(|u| u.2).sum();
+                // (an observation that overlaps the first drop may still show the series from the handle
+                // it took before: it is judged only when it returned before that drop was invoked)
+                let first_life = if o.keep { first_drop.map(|d| o.ret < d).unwrap_or(true) } else { first_drop == Some(o.inv) };
+                // "earlier" observations: those that had returned before this one was invoked
+                let earlier: Vec<&MtObs> = obs.iter().filter(|p| p.listed && p.ret < o.inv).collect();
                 if o.keep {
-                    if o.value < done_before || o.value > begun_before {
+                    if !first_life {
+                        continue;
+                    }
+                    if (o.value & done_before) != done_before || (o.value & !begun_before) != 0 {
                         v = violation("kept-value-wrong", format!("observation {} (steps {}..{}) reports {} but increments completed before it sum to {} and those begun before it ended to {}", i, o.inv, o.ret, o.value, done_before, begun_before));
                         break;
                     }
                     // must it have been dropped? some earlier observation, more than the timeout
                     // ago, already began after the last update had completed
-                    if let Some(j) = (0..i).find(|j| obs[*j].listed && o.t - obs[*j].t > t_ns && ups.iter().all(|u| u.1 < obs[*j].inv) && ups.len() == plan.updates.len()) {
-                        v = violation("kept-too-long", format!("observation {} at t={}ns keeps the counter although observation {} at t={}ns (more than the timeout {}ns earlier) already began after the last update had completed", i, o.t, j, obs[j].t, t_ns));
+                    if let Some(j) = earlier.iter().find(|j| o.t > j.t_end && o.t - j.t_end > t_ns && ups.iter().all(|u| u.1 < j.inv) && ups.len() == plan.updates.len()) {
+                        v = violation("kept-too-long", format!("observation {} at t={}ns keeps the counter although an observation at t={}ns (steps {}..{}, more than the timeout {}ns earlier) already began after the last update had completed", i, o.t, j.t, j.inv, j.ret, t_ns));
                         break;
                     }
                 } else {
                     // dropped: legal only when it was unchanged since an observation made more than
                     // the timeout ago
-                    let prev: Vec<&MtObs> = obs[..i].iter().filter(|p| p.listed).collect();
-                    if !prev.iter().any(|p| o.t - p.t > t_ns) {
-                        v = violation("dropped-too-early", format!("observation {} at t={}ns drops the counter but no earlier observation is more than the timeout ({}ns) old: {:?}", i, o.t, t_ns, prev.iter().map(|p| p.t).collect::<Vec<_>>()));
+                    // (any other observation that began before this one ended may have established the record)
+                    let prev: Vec<&MtObs> = obs.iter().filter(|p| p.listed && p.inv < o.ret && p.inv != o.inv).collect();
+                    if !prev.iter().any(|p| o.t_end - p.t > t_ns) {
+                        v = violation("dropped-too-early", format!("observation {} at t={}..{}ns drops the counter but no earlier observation is more than the timeout ({}ns) old: {:?}", i, o.t, o.t_end, t_ns, prev.iter().map(|p| p.t).collect::<Vec<_>>()));
                         break;
                     }
-                    if let Some(last) = prev.last() {
+                    if let Some(last) = earlier.iter().max_by_key(|p| p.ret) {
                         if let Some(u) = ups.iter().find(|u| u.0 > last.ret && u.1 < o.inv) {
                             v = violation("dropped-too-early", format!("observation {} (steps {}..{}) drops the counter although an update (steps {}..{}) was made entirely after the previous observation (steps {}..{})", i, o.inv, o.ret, u.0, u.1, last.inv, last.ret));
                             break;
                         }
                     }
                     // nothing that completed before the dropping observation may go unreported
-                    let reported = prev.iter().map(|p| p.value).max().unwrap_or(0);
-                    if reported < done_before {
+                    let reported = prev.iter().fold(0u64, |a, p| a | p.value);
+                    if first_life && (reported & done_before) != done_before {
                         v = violation("dropped-with-unreported-update", format!("observation {} (steps {}..{}) drops the counter; increments completed before it began sum to {} but the most any earlier observation reported is {} (updates {:?}, observations {:?})", i, o.inv, o.ret, done_before, reported, ups, obs.iter().map(|x| (x.t, x.inv, x.ret, x.keep, x.value)).collect::<Vec<_>>()));
                         break;
                     }
+                }
+            }
+        }
+        // Structural signatures of the known finding (Recency deletes by key without re-checking the
+        // generation, and its record is not tied to the storage instance):
+        //  - an update overlapping the observation that drops the series is deleted with it;
+        //  - observers that overlap each other act on stale handles: one re-inserts a record for a
+        //    series the other has just expired (a re-created series, whose generations restart, is
+        //    then judged idle against it), or writes an older generation back over a newer one (the
+        //    series is then kept one round too long).
+        let drops: Vec<&MtObs> = obs.iter().filter(|o| o.listed && !o.keep).collect();
+        let sig_for = |u: Option<&(u64, u64, u64)>, at: u64| -> String {
+            let mut sg = String::new();
+            if let Some(u) = u {
+                if drops.iter().any(|d| u.0 < d.ret && u.1 > d.inv) {
+                    sg.push_str(" sig:update-overlaps-dropping-observation");
+                }
+            }
+            if obs.iter().any(|a| a.listed && a.inv < at && obs.iter().any(|b| b.listed && b.inv != a.inv && b.inv < at && b.inv < a.ret && b.ret > a.inv)) {
+                sg.push_str(" sig:overlapping-observers");
+            }
+            sg
+        };
+        if let Some(vv) = v.as_mut() {
+            if ["dropped-too-early", "kept-too-long", "kept-value-wrong", "dropped-with-unreported-update"].contains(&vv.class.as_str()) {
+                // (the violating observation is the last one the loop above looked at)
+                let at = viol_at;
+                vv.detail.push_str(&sig_for(None, at));
+            }
+        }
+        // every update is reported: once an observation has begun after an update returned, some
+        // observation must have shown a value containing that update's bit
+        if v.is_none() && simr.end == dsim::End::Completed && simr.panics.is_empty() {
+            for (ui, u) in ups.iter().enumerate() {
+                let bit = u.2;
+                let later_obs = obs.iter().any(|o| o.inv > u.1);
+                let shown = obs.iter().any(|o| o.listed && o.ret > u.0 && o.value & bit != 0);
+                if later_obs && !shown {
+                    v = violation("update-never-reported", format!("update {} (steps {}..{}, adds {}) never appeared in any observed value although observations were made after it returned (updates {:?}; observations (t, invoked, returned, listed, kept, value): {:?}){}", ui, u.0, u.1, bit, ups, obs.iter().map(|x| (x.t, x.inv, x.ret, x.listed, x.keep, x.value)).collect::<Vec<_>>(), sig_for(Some(u), u.0)));
+                    break;
                 }
             }
         }
@@ -700,6 +819,12 @@ impl Scenario for C12RecencyMt {
         }
         if p.delay > 0 {
             out.push(MtPlan { delay: p.delay - 1, ..p.clone() });
+        }
+        if p.second_observer > 0 {
+            out.push(MtPlan { second_observer: p.second_observer - 1, ..p.clone() });
+        }
+        if p.update_gap > 0 {
+            out.push(MtPlan { update_gap: p.update_gap / 2, ..p.clone() });
         }
         out
     }
